@@ -1,4 +1,5 @@
 """C15 — site contains exactly the right pages, each scaled to its serving count."""
+import os
 import shutil
 from fractions import Fraction
 from urllib.parse import unquote
@@ -312,6 +313,35 @@ def check_decimal_consistency():
         shutil.rmtree(scratch, ignore_errors=True)
 
 
+def check_cli_status():
+    """the command reports through its exit status whether the site was generated: zero and all pages for a good tree, non-zero and a message
+    when a recipe states more servings than --max-servings - run as a module and the way the installed command runs it"""
+    import subprocess
+    import sys
+    out = []
+    scratch = gen_site.scratch_root()
+    try:
+        src = scratch / "book"
+        src.mkdir()
+        (src / "stew.md").write_text("# Stew for 4\n\n    1 kg beef\n")
+        (src / "plain.md").write_text("# Plain\n\n    1 x\n")
+        env = dict(os.environ, PYTHONPATH=os.pathsep.join(x for x in sys.path if x))
+        routes = {"python -m recipe_grid.scripts.recipe_grid_site": [sys.executable, "-m", "recipe_grid.scripts.recipe_grid_site"],
+                  "installed command (sys.exit(main()))": [sys.executable, "-c", "import sys; from recipe_grid.scripts.recipe_grid_site import main; sys.exit(main())"]}
+        for name, argv in routes.items():
+            for M, ok in ((4, True), (3, False), (10, True)):
+                dst = scratch / ("out-%d-%d" % (M, len(name)))
+                p = subprocess.run(argv + [str(src), str(dst), "--max-servings", str(M)], stdout=subprocess.PIPE, stderr=subprocess.PIPE, text=True, timeout=300, env=env)
+                pages = sorted(str(x.relative_to(dst)) for x in dst.rglob("*.html")) if dst.exists() else []
+                if ok and (p.returncode != 0 or "serves%d/stew.html" % M not in pages or "serves1/stew.html" not in pages or "categories/plain.html" not in pages):
+                    out.append(("C15:command-line-wrong", "%s with --max-servings %d: exit status %d, pages %r" % (name, M, p.returncode, pages[:6])))
+                if not ok and (p.returncode == 0 or not (p.stderr + p.stdout).strip()):
+                    out.append(("C15:too-many-servings-not-reported", "%s with --max-servings %d on a recipe for 4: exit status %d, message %r" % (name, M, p.returncode, (p.stderr + p.stdout)[-150:])))
+        return out
+    finally:
+        shutil.rmtree(scratch, ignore_errors=True)
+
+
 def gen_case(rng, collide=False):
     d = gen_site.gen_tree(rng, rng.randint(0, 3), gen_site.SAFE_NAMES, servings_pool=(None, 1, 2, 3, 5))
     if collide and d["recipes"]:
@@ -354,6 +384,9 @@ def fixed_cases():
 
 def oracle(run):
     rng = run.rng
+    run.case(("command-line",), True, kind="command-line")
+    for sig, detail in check_cli_status()[:2]:
+        run.violate(sig, detail, {"command_line": True})
     run.case(("decimal-consistency",), True, kind="decimal-consistency")
     for sig, detail in check_decimal_consistency():
         run.violate(sig, detail, {"decimal_consistency": True})
@@ -370,6 +403,11 @@ def oracle(run):
 
 def replay(run, obj):
     r = obj["replay"]
+    if r.get("command_line"):
+        res = check_cli_status()
+        for x in res:
+            print(*x)
+        return bool(res)
     if r.get("decimal_consistency"):
         res = check_decimal_consistency()
         for x in res:
